@@ -78,23 +78,35 @@ func c02Bytes(id string, i, n int) []byte {
 // c02Model is the response a handler that executed steps[:upto] has produced.
 type c02Model struct {
 	status    int
-	headers   [][2]string // set before the header was committed
+	headers   [][2]string // header lines (key, value) in force when the header was committed, grouped by key
+	hkeys     []string
+	hvals     map[string][]string
 	body      []byte
 	committed bool // a status or write step was executed
 	writes    int
 }
 
 func (s *c02Script) model(id string, upto int) c02Model {
-	mo := c02Model{status: http.StatusOK}
+	mo := c02Model{status: http.StatusOK, hvals: map[string][]string{}}
 	if upto > len(s.Steps) {
 		upto = len(s.Steps)
 	}
 	for i := 0; i < upto; i++ {
 		st := s.Steps[i]
 		switch st.Op {
-		case "hdr":
+		case "hdr", "hadd", "hlist":
 			if !mo.committed {
-				mo.headers = append(mo.headers, [2]string{st.K, st.V})
+				if _, seen := mo.hvals[st.K]; !seen {
+					mo.hkeys = append(mo.hkeys, st.K)
+				}
+				switch st.Op {
+				case "hdr": // Header().Set
+					mo.hvals[st.K] = []string{st.V}
+				case "hadd": // Header().Add
+					mo.hvals[st.K] = append(mo.hvals[st.K], st.V)
+				case "hlist": // Header()[K] = []string{...}
+					mo.hvals[st.K] = strings.Split(st.V, "|")
+				}
 			}
 		case "status":
 			if !mo.committed {
@@ -107,7 +119,51 @@ func (s *c02Script) model(id string, upto int) c02Model {
 			mo.writes++
 		}
 	}
+	for _, k := range mo.hkeys {
+		for _, v := range mo.hvals[k] {
+			mo.headers = append(mo.headers, [2]string{k, v})
+		}
+	}
 	return mo
+}
+
+// c02HandlerHeaderValues lists every (key, value) the script ever puts into the
+// header map.
+func c02HandlerHeaderValues(sc *c02Script) [][2]string {
+	var out [][2]string
+	for _, st := range sc.Steps {
+		switch st.Op {
+		case "hdr", "hadd":
+			out = append(out, [2]string{st.K, st.V})
+		case "hlist":
+			for _, v := range strings.Split(st.V, "|") {
+				out = append(out, [2]string{st.K, v})
+			}
+		}
+	}
+	return out
+}
+
+// c02GenMultiHeaders: header keys carrying two or more values, built the ways
+// handlers build them.
+func c02GenMultiHeaders(r *rand.Rand) []c02Step {
+	var st []c02Step
+	n := r.Intn(1000)
+	for _, pick := range r.Perm(4)[:1+r.Intn(3)] {
+		switch pick {
+		case 0: // two cookies
+			st = append(st, c02Step{Op: "hadd", K: "Set-Cookie", V: fmt.Sprintf("c02a=%d; Path=/", n)}, c02Step{Op: "hadd", K: "Set-Cookie", V: fmt.Sprintf("c02b=%d; HttpOnly", n+1)})
+		case 1: // a slice assigned in one go
+			st = append(st, c02Step{Op: "hlist", K: "Vary", V: "Accept-Encoding|Origin"})
+		case 2: // three values on a custom key
+			for j := 0; j < 3; j++ {
+				st = append(st, c02Step{Op: "hadd", K: "X-C02-Multi", V: fmt.Sprintf("m%d-%d", j, n)})
+			}
+		case 3: // set, then added to
+			st = append(st, c02Step{Op: "hdr", K: "X-C02-Grow", V: fmt.Sprintf("g0-%d", n)}, c02Step{Op: "hadd", K: "X-C02-Grow", V: fmt.Sprintf("g1-%d", n)})
+		}
+	}
+	return st
 }
 
 func (s *c02Script) index(op string) int {
@@ -132,6 +188,9 @@ func c02GenResponseSteps(r *rand.Rand, allow5xx bool) []c02Step {
 	}
 	if r.Intn(5) == 0 {
 		st = append(st, c02Step{Op: "hdr", K: "Content-Type", V: "application/x-c02"})
+	}
+	if r.Intn(3) == 0 {
+		st = append(st, c02GenMultiHeaders(r)...)
 	}
 	if r.Intn(3) > 0 { // explicit status
 		code := c02Statuses[r.Intn(len(c02Statuses))]
@@ -377,6 +436,7 @@ type c02Route struct {
 	Timeout  time.Duration // effective route timeout, 0 = none
 	MaxBytes int64         // effective limit, 0 = none
 	Class    string
+	Label    string // how the timeout was configured: config-{zero,negative,positive}:route-{unset,set}
 
 	inside    int64
 	maxInside int64
@@ -463,6 +523,10 @@ func (run *c02Run) exec(w http.ResponseWriter, r *http.Request) {
 		switch st.Op {
 		case "hdr":
 			w.Header().Set(st.K, st.V)
+		case "hadd":
+			w.Header().Add(st.K, st.V)
+		case "hlist":
+			w.Header()[st.K] = strings.Split(st.V, "|")
 		case "status":
 			b := vk.Seq()
 			w.WriteHeader(st.N)
@@ -609,12 +673,22 @@ func c02NewEnv(tag string, cfg Config, groups []c02Group, opts ...Option) (*c02E
 		var rs []Route
 		for i := 0; i < g.N; i++ {
 			rt := &c02Route{Method: g.Method, Path: fmt.Sprintf("/%s/%s/r%d", tag, g.Class, i), Class: g.Class}
+			sign, set := "zero", "unset"
+			if cfg.Timeout < 0 {
+				sign = "negative"
+			} else if cfg.Timeout > 0 {
+				sign = "positive"
+			}
+			if g.Timeout > 0 {
+				set = "set"
+			}
+			rt.Label = "config-" + sign + ":route-" + set
 			rt.Timeout = g.Timeout
-			if rt.Timeout == 0 {
+			if rt.Timeout == 0 && cfg.Timeout > 0 {
 				rt.Timeout = time.Duration(cfg.Timeout) * time.Millisecond
 			}
 			rt.MaxBytes = g.MaxBytes
-			if rt.MaxBytes == 0 {
+			if rt.MaxBytes == 0 && cfg.MaxBytes > 0 {
 				rt.MaxBytes = cfg.MaxBytes
 			}
 			e.routes[g.Class] = append(e.routes[g.Class], rt)
@@ -676,7 +750,7 @@ func (r *c02Resp) String() string {
 	}
 	var hs []string
 	for k, v := range r.Header {
-		if strings.HasPrefix(k, "X-C02") || k == "Content-Type" {
+		if strings.HasPrefix(k, "X-C02") || k == "Content-Type" || k == "Set-Cookie" || k == "Vary" {
 			hs = append(hs, k+"="+strings.Join(v, ","))
 		}
 	}
@@ -701,9 +775,14 @@ func c02IsHandlerResp(run *c02Run, resp *c02Resp, upto int) (bool, string, strin
 	if resp.Status != mo.status {
 		return false, "status", fmt.Sprintf("status %d, handler chose %d", resp.Status, mo.status)
 	}
-	for _, h := range mo.headers {
-		if got := resp.Header.Values(h[0]); len(got) != 1 || got[0] != h[1] {
-			return false, "header", fmt.Sprintf("header %s = %q, handler set %q", h[0], got, h[1])
+	for _, k := range mo.hkeys {
+		want := mo.hvals[k]
+		if got := resp.Header.Values(k); strings.Join(got, "\x00") != strings.Join(want, "\x00") {
+			sub := "header"
+			if len(want) > 1 {
+				sub = "multi-value-header"
+			}
+			return false, sub, fmt.Sprintf("header %s = %q, handler set %q (full value list, in order)", k, got, want)
 		}
 	}
 	if !bytes.Equal(resp.Body, mo.body) {
@@ -731,10 +810,10 @@ func c02IsTimeoutResp(run *c02Run, resp *c02Resp, code int) (bool, string, strin
 	if string(resp.Body) != c02TimeoutBody {
 		return false, "body", fmt.Sprintf("body %q…(%d bytes), want %q", c02Head(resp.Body), len(resp.Body), c02TimeoutBody)
 	}
-	for _, st := range run.script.Steps {
-		if st.Op == "hdr" {
-			if got := resp.Header.Values(st.K); len(got) > 0 && got[0] == st.V {
-				return false, "handler-header", fmt.Sprintf("handler header %s=%q present in the timeout response", st.K, st.V)
+	for _, h := range c02HandlerHeaderValues(run.script) {
+		for _, got := range resp.Header.Values(h[0]) {
+			if got == h[1] {
+				return false, "handler-header", fmt.Sprintf("handler header %s=%q present in the timeout response", h[0], h[1])
 			}
 		}
 	}
